@@ -164,6 +164,40 @@ def task(item):
                 if not same_value(back, exp):
                     oc['readback-differs'] += 1
                     out_v.append(viol('readback:%s:%s' % (dname, rtbase.shape_kind(shape)), 'assigned %r, read back %r (%s)' % (obj, back, shape), inputs))
+    # the universe's own unions: constructing each typed member (own and inherited tags) through the class's constructor method
+    ut1 = rt.strip(t)[0]
+    if pos == 'alias' and isinstance(ut1, dt.Union):
+        cls = rt.py_class(u.pkg, ut1.namespace.name, ut1.name)
+        for f in rt.union_tags(ut1):
+            ft, _ = rt.strip(f.data_type)
+            if isinstance(ft, dt.Void):
+                continue
+            for label, obj in rt.probes_for(u.pkg, u.api, f.data_type):
+                verdict = rt.ref_valid(u.pkg, u.api, f.data_type, obj)
+                n += 1
+                inputs = {'shape': shape, 'position': 'member %s of %s' % (f.name, ut1.name), 'door': 'member-ctor', 'probe': label, 'value': repr(obj)[:200]}
+                try:
+                    back = getattr(cls, f.name)(obj)._value
+                    accepted = True
+                except VE:
+                    accepted = False
+                except Exception as e:  # noqa
+                    oc['foreign-exception'] += 1
+                    out_v.append(viol('%s:member-ctor' % rtbase.runtime_identity(e, 'refusal-not-validation-error'),
+                                      'probe %s for member %s.%s raised %r instead of ValidationError' % (label, ut1.name, f.name, e), inputs, repr(e)))
+                    continue
+                if verdict is None:
+                    oc['unspecified'] += 1
+                elif accepted != verdict:
+                    oc['disagree'] += 1
+                    kind = 'accepted-invalid' if accepted else 'refused-valid'
+                    out_v.append(viol('%s:member-ctor:%s:%s' % (kind, 'inherited-tag' if f not in ut1.fields else 'own-tag', label.split(':')[0].split('<-')[0]),
+                                      '%s: %s (%r) for member %s.%s' % (kind, label, obj, ut1.name, f.name), inputs, 'accepted' if accepted else 'ValidationError', 'valid' if verdict else 'invalid'))
+                else:
+                    oc['agree-accept' if accepted else 'agree-refuse'] += 1
+                    if accepted and not same_value(back, obj):
+                        oc['readback-differs'] += 1
+                        out_v.append(viol('readback:member-ctor', 'constructed %s.%s(%r), value reads back %r' % (ut1.name, f.name, obj, back), inputs))
     return {'outcome': oc, 'viol': out_v, 'n': n, 'transitions': n}
 
 
